@@ -150,6 +150,8 @@ class ShardBuild:
 
     def need(self):
         s = set()
+        if not self.kernels:
+            return [("gcc", False)]
         for k in self.kernels:
             for v in k.views:
                 s.add((v, bool(k.ndebug)))
